@@ -975,6 +975,13 @@ func (x *enfRun) judge(f *enfEnd) {
 		res.Violate(sig, what, peerWitness(pe))
 	}
 
+	// A liar whose lie went to the client while nobody contradicted it.
+	loneLiar := ""
+	for _, pe := range f.Peers {
+		if (pe.LieTold == "cfheaders" || pe.LieTold == "cfcheckpt") && pe.Detectable == "" {
+			loneLiar = pe.Label + " peer " + pe.Addr
+		}
+	}
 	bans, requiredBans := 0, 0
 	for _, pe := range f.Peers {
 		// Public API and store must tell the same story.
@@ -1083,13 +1090,24 @@ func (x *enfRun) judge(f *enfEnd) {
 					res.Inconcl("honest-class peer banned in a run with scheduling stalls: " + pe.Class)
 					outcome += "/stalled"
 				default:
-					truth := "committed-filter-headers=truth"
+					sig := evid.Sig("c13-enf/c/honest-peer-banned", pe.Class, "recorded="+orNone(pe.StoreReason), path, "committed-filter-headers=truth")
+					extra := ""
 					if f.StoreTruth != "" {
-						truth = "committed-filter-headers=false"
+						// Another root cause: the client contradicts the peer
+						// from FALSE filter headers it committed itself.
+						how := "conflict-was-visible"
+						if loneLiar != "" {
+							how = "lone-liar-believed"
+						}
+						sig = evid.Sig("c13-enf/c/honest-peer-banned", "committed-filter-headers=false", how, path)
+						extra = "; the client's own committed filter headers are FALSE (" + f.StoreTruth + ")"
+						if loneLiar != "" {
+							extra += ": it took them from " + loneLiar + " while no other peer was there to contradict it"
+						}
 					}
-					violate(pe, evid.Sig("c13-enf/c/honest-peer-banned", pe.Class, "recorded="+orNone(pe.StoreReason), path, truth),
-						fmt.Sprintf("%s peer %s ended up banned (reason %s) although it answered every request of the client correctly and promptly (%d connections, no unanswered or late request, it never dropped a connection itself)",
-							pe.Class, pe.Addr, orNone(pe.StoreReason), pe.Conns))
+					violate(pe, sig,
+						fmt.Sprintf("%s peer %s ended up banned (reason %s) although it answered every request of the client correctly and promptly (%d connections, no unanswered or late request, it never dropped a connection itself)%s",
+							pe.Class, pe.Addr, orNone(pe.StoreReason), pe.Conns, extra))
 				}
 			} else {
 				res.Count("enf_honest_class_not_banned", 1)
